@@ -35,7 +35,8 @@ RULE = ("one evaluation = one generated history of member additions, "
         "distinct SHA-1 of the full event history")
 EXPECTED_PROBES = ["add_while_iterator_live", "stale_iterator_advanced",
                    "stale_iterator_exhausted_after_mutation",
-                   "coinciding_inclusion", "excluded_occurrence"]
+                   "coinciding_inclusion", "excluded_occurrence",
+                   "process_tz_with_dst_and_gap_hour_dates"]
 
 ROLES = ["rrule", "rdate", "exrule", "exdate"]
 
@@ -78,6 +79,29 @@ def generate(cls, rng):
     # its own fields (6 h and 12 h apart: the family's occurrences sit on a
     # 6-hour grid, so instants spelled in different offsets do coincide)
     init["aware"] = rng.random() < 0.1
+    if not init["aware"] and init["base"][0] != 1 and rng.random() < 0.08:
+        # a process time zone with daylight saving, and listed dates in and
+        # around the hour that does not exist / exists twice there: naive
+        # datetimes are ordered by their fields, whatever the process zone
+        # makes of them (timestamp() / mktime() are not monotonic here)
+        init["proc_tz"], month, day = rng.choice([
+            ("EST5EDT,M3.2.0,M11.1.0", 3, 14),
+            ("EST5EDT,M3.2.0,M11.1.0", 11, 7),
+            ("NZST-12NZDT,M9.5.0,M4.1.0/3", 9, 26),
+            ("NZST-12NZDT,M9.5.0,M4.1.0/3", 4, 4)])
+        init["base"] = [2021, month, 1, 0, 0, 0]
+        for r in ("rrules", "exrules"):
+            for m in init[r]:
+                m["dtstart"][0:2] = [2021, month]
+        init["rdates"] = [[2021, month, day, h, mi, 0]
+                          for h, mi in rng.sample(
+                              [(0, 59), (1, 0), (1, 30), (1, 59), (2, 0),
+                               (2, 30), (2, 59), (3, 0), (3, 30)],
+                              rng.randrange(3, 8))]
+        init["exdates"] = [[2021, month, day, h, mi, 0]
+                           for h, mi in rng.sample(
+                               [(1, 30), (2, 0), (2, 30), (3, 0)],
+                               rng.randrange(0, 3))]
     base = init["base"]
     ops = []
     live = []
@@ -182,6 +206,12 @@ def execute(cls, scenario, ctx):
     if init.get("aware"):
         RL.AWARE_OFFSETS = [0, -360, 720]
         ctx.probe("aware_members_mixed_offsets")
+    if init.get("proc_tz"):
+        import os
+        import time
+        os.environ["TZ"] = init["proc_tz"]
+        time.tzset()
+        ctx.probe("process_tz_with_dst_and_gap_hour_dates")
     base = RL.dt(init["base"])
     A = rr.rruleset(cache=True)
     B = rr.rruleset(cache=False)
